@@ -448,6 +448,9 @@ static void exec(const std::string &text, bool verbose) {
         std::string what = kv.kv.empty() ? "" : kv.kv[1].first;  // kv[0] is b=
         g_inc = (int)(kv.u64("inc", 0) % 3);
         auto check_bytes = [&](const std::string &sigtail, const std::string &ctx) {
+            if (bind_multi_eval)
+                violation("eval:" + sigtail, ctx + ": the accessor evaluated an argument expression more than once (it is a function-like macro that mentions its parameter "
+                                                    "twice); with an argument like next(&cursor) it reads one message and writes another");
             if (memcmp(a.mem, a.model.data(), a.size) != 0)
                 violation("bytes:" + sigtail, ctx + ": " + first_diff(a.mem, a.model.data(), a.size, b.off, f->spec_bytes));
         };
